@@ -268,4 +268,121 @@ computes it: next segment's base offset − 1, or the last record of the segment
 def StatsOK (sss : List SSeg) : Prop :=
   ∀ ss ∈ sss, ∀ m, ss.maxOff = some m → ∀ o ∈ ss.seg.offs, o ≤ m
 
+/-! ### The lister (`internal/discovery`: `s3Lister.ListCompleted`, sql `manifestLister`)
+
+The bucket holds, per segment, a `.kfs`/`.index` pair whose key names topic, partition and base
+offset.  `ListCompleted` lists the keys (`ListObjectsV2`), probes every pair for the footer magic (a
+ranged `GetObject` of the last four bytes) and returns the completed ones sorted by (topic,
+partition, base offset).  A failing `ListObjectsV2` fails the listing; after
+`fixes/C36-footer-probe-error.patch` (sql) and `fixes/C33-iceberg-footer-probe-error.patch` (iceberg)
+so does a failing footer probe.  `…Old` is the code before: a segment whose probe FAILED was
+dropped like one that is not completed, and the listing succeeded without it. -/
+
+/-- a `.kfs`/`.index` pair in the bucket: the segment it decodes to, the base offset in its key,
+and whether the `.kfs` object ends with the footer magic -/
+structure Obj where
+  seg : Seg
+  base : Nat
+  complete : Bool
+deriving Repr, DecidableEq
+
+/-- the order of `sort.Slice` in `ListCompleted`: (topic/partition, base offset) -/
+def objLe (a b : Obj) : Bool :=
+  decide (a.seg.tp < b.seg.tp) || (decide (a.seg.tp = b.seg.tp) && decide (a.base ≤ b.base))
+
+def insertObj (a : Obj) : List Obj → List Obj
+  | [] => [a]
+  | b :: t => if objLe a b then a :: b :: t else b :: insertObj a t
+
+def sortObjs (l : List Obj) : List Obj := l.foldr insertObj []
+
+/-- which requests of one `ListCompleted` call fail -/
+structure ListOracle where
+  listErr : Bool            -- `ListObjectsV2`
+  probeErr : List Bool      -- per pair of the bucket: the ranged `GetObject` of the footer probe
+  manifestErr : Bool := false  -- sql `manifestLister`: the `GetObject` of `manifest.json`
+deriving Repr
+
+/-- does the footer probe of some pair fail? -/
+def anyProbeErr : List Obj → List Bool → Bool
+  | [], _ => false
+  | _ :: t, pe => pe.headD false || anyProbeErr t pe.tail
+
+/-- the pairs the pre-fix loop keeps: completed and probed without an error -/
+def survivors : List Obj → List Bool → List Obj
+  | [], _ => []
+  | a :: t, pe =>
+    if a.complete && !(pe.headD false) then a :: survivors t pe.tail else survivors t pe.tail
+
+/-- every completed segment of the bucket, in listing order -/
+def fullListing (objs : List Obj) : List Seg := (sortObjs (objs.filter (·.complete))).map (·.seg)
+
+/-- `s3Lister.ListCompleted` (fixed): an error (`none`: the polling cycle is skipped) or the
+complete sorted listing -/
+def listCompleted (objs : List Obj) (lo : ListOracle) : Option (List Seg) :=
+  if lo.listErr then none
+  else if anyProbeErr objs lo.probeErr then none
+  else some (fullListing objs)
+
+/-- `s3Lister.ListCompleted` before the fix: `if err != nil || !ok { continue }` -/
+def listCompletedOld (objs : List Obj) (lo : ListOracle) : Option (List Seg) :=
+  if lo.listErr then none
+  else some ((sortObjs (survivors objs lo.probeErr)).map (·.seg))
+
+/-- sql `manifestLister.ListCompleted` (TTL 0) after `fixes/C33-sql-manifest-listing-order.patch`:
+the entries of `manifest.json` sorted like the S3 listing; when the manifest cannot be read or is
+empty, the fallback `s3Lister` -/
+def listManifest (manifest objs : List Obj) (lo : ListOracle) : Option (List Seg) :=
+  if lo.manifestErr || manifest.isEmpty then listCompleted objs lo
+  else some ((sortObjs manifest).map (·.seg))
+
+/-- … before the fix: the entries in the order of the file -/
+def listManifestOld (manifest objs : List Obj) (lo : ListOracle) : Option (List Seg) :=
+  if lo.manifestErr || manifest.isEmpty then listCompleted objs lo
+  else some (manifest.map (·.seg))
+
+/-- one tick with a lister `ls` in front of the loop: `segments, err := ListCompleted(); if err != nil { continue }` -/
+def cycleWith (ls : Option (List Seg)) (k : StoreKind) (o : Oracle) (s : St) : St :=
+  match ls with
+  | none => s
+  | some l => cycle k l o s
+
+def cycleL (k : StoreKind) (objs : List Obj) (lo : ListOracle) (o : Oracle) (s : St) : St :=
+  cycleWith (listCompleted objs lo) k o s
+
+def cycleLOld (k : StoreKind) (objs : List Obj) (lo : ListOracle) (o : Oracle) (s : St) : St :=
+  cycleWith (listCompletedOld objs lo) k o s
+
+inductive LOp where
+  | cycle (lo : ListOracle) (o : Oracle)
+  | leaseLost
+deriving Repr
+
+def stepL (k : StoreKind) (objs : List Obj) (s : St) : LOp → St
+  | .cycle lo o => cycleL k objs lo o s
+  | .leaseLost => { s with lease := none }
+
+/-- What the broker guarantees about the completed segments of a bucket: keys are unique, the
+records of a segment are in offset order, and a segment with a smaller base offset holds smaller
+offsets than one of the same partition with a larger base offset. -/
+structure WFObjs (c : List Obj) : Prop where
+  keys : c.Pairwise (fun a b => ¬ (a.seg.tp = b.seg.tp ∧ a.base = b.base))
+  inner : ∀ a ∈ c, a.seg.offs.Pairwise (· < ·)
+  across : ∀ a ∈ c, ∀ b ∈ c, a.seg.tp = b.seg.tp → a.base < b.base →
+    ∀ x ∈ a.seg.offs, ∀ y ∈ b.seg.offs, x < y
+
+def BucketWF (objs : List Obj) : Prop := WFObjs (objs.filter (·.complete))
+
+/-- a history in which the bucket changes between ticks -/
+inductive LGOp where
+  | cycle (objs : List Obj) (lo : ListOracle) (o : Oracle)
+  | leaseLost
+
+/-- runs the history; the first component is the complete listing of the latest bucket (ghost:
+what the specification speaks about, also when that tick's `ListCompleted` failed) -/
+def lgrun (k : StoreKind) : List Seg → St → List LGOp → List Seg × St
+  | cur, s, [] => (cur, s)
+  | _, s, .cycle objs lo o :: rest => lgrun k (fullListing objs) (cycleL k objs lo o s) rest
+  | cur, s, .leaseLost :: rest => lgrun k cur { s with lease := none } rest
+
 end KafVerif.Processor
